@@ -1113,6 +1113,7 @@ func runC14(r *Run) {
 		r.Notes = append(r.Notes, "replay mode: re-running the generator with the recorded seed is the replay for C14 (cases are derived from the seed)")
 		r.replay = nil
 	}
+	c14FileSchema(r)
 	c := &c14Run{r: r, seen: map[string]bool{}}
 	kinds := map[string]int{}
 
